@@ -229,7 +229,7 @@ func (h *Handler) WhoIs(ip netip.Addr) (packet.Addr, error) {
 
 	for i := 0; i < 3; i++ {
 		if host := h.session.FindIP(ip); host != nil {
-			return packet.Addr{IP: host.Addr.IP, MAC: host.MACEntry.MAC}, nil
+			return packet.Addr{IP: host.Addr.IP, MAC: packet.CopyMAC(host.MACEntry.MAC)}, nil // the caller owns the result
 		}
 		if err := h.Request(ip); err != nil {
 			return packet.Addr{}, err
